@@ -17,6 +17,16 @@ Open Scope Z_scope.
 (* ------------------------------------------------------------------ clause 1
    "A request is made to the upload server only when the mode recorded in the
    mode file is exactly "on"." *)
+(* "exactly on": a file reads as on (off, local) precisely when, after
+   TrimSpace, it is that word alone or that word, ONE ASCII space, and anything
+   (the format SetMode writes).  A tab, newline, NBSP ... after the word makes
+   it another value, which behaves as local. *)
+Theorem C02_mode_exact : forall file w, index_byte w space = None ->
+  (fst (parse_mode (Some file)) = w <->
+   trim_space file = w \/ exists rest, trim_space file = (w ++ space :: rest)%list).
+Proof. exact parse_mode_exact. Qed.
+Print Assumptions C02_mode_exact.
+
 Theorem C02_post_only_when_on : forall (R : Type) (rlt : R -> R -> bool) (rzero : R)
     (cfg : runcfg R) (fs : fstate) (fdate name : bytes),
   In (EPost fdate name) (fst (run R rlt rzero cfg fs)) ->
@@ -362,3 +372,18 @@ Example C02_example_mode_files :
   set_mode (s2b "on") (86400 * ex_day (-1) 12 31) = SetErrDate /\
   year_of_sec (86400 * ex_day 9999 12 31 + 86399) = 9999.
 Proof. vm_compute. repeat split; reflexivity. Qed.
+
+(* white space other than one space after the word: not on, so nothing is sent
+   and the week is built as a local report *)
+Example C02_example_ws_separators :
+  index_byte m_on space = None /\
+  mode_of (Some (s2b "on	2024-01-01")) <> m_on /\
+  mode_of (Some (s2b "on
+2024-01-01")) <> m_on /\
+  mode_of (Some (m_on ++ [13; 10]%N ++ s2b "# comment")%list) <> m_on /\
+  mode_of (Some (m_on ++ [194; 160]%N ++ s2b "2024-01-01")%list) <> m_on /\
+  mode_of (Some (m_on ++ [9]%N)%list) = m_on /\
+  mode_of (Some (s2b "on 	2024-01-01")) = m_on /\
+  posts_of (fst (run Z Z.ltb 0 ex_cfg (ex_fs "on	2023-12-30"))) = [] /\
+  fst (run Z Z.ltb 0 ex_cfg (ex_fs "on	2023-12-30")) = fst (run Z Z.ltb 0 ex_cfg (ex_fs "local")).
+Proof. vm_compute. repeat split; try reflexivity; discriminate. Qed.
